@@ -1207,6 +1207,9 @@ func (vc *VC) evalConversion(st *State, target types.Type, arg ast.Expr, pos tok
 	if vc.sortOf(target) == v.Sort {
 		return Val{S: v.S, Ty: target, Sort: v.Sort}
 	}
+	if r, ok := vc.structConv(v, target); ok {
+		return r
+	}
 	vc.unsupportedf(pos, "conversion %s -> %s", src, target)
 	return vc.havocVal(st, target, "conv")
 }
@@ -1596,4 +1599,27 @@ func (vc *VC) updatePath(st *State, cur Val, path []int, v Val, pos token.Pos) s
 	inner, _ := vc.fieldSel(cur, f.Name())
 	nv := vc.updatePath(st, inner, path[1:], v, pos)
 	return vc.structUpdate(cur, f.Name(), nv)
+}
+
+
+// structConv: conversion between named struct types with identical underlying structs (e.g. SlabID <-> SlabIDStorable)
+func (vc *VC) structConv(v Val, target types.Type) (Val, bool) {
+	ts, ok1 := target.Underlying().(*types.Struct)
+	ss, ok2 := v.Ty.Underlying().(*types.Struct)
+	if !ok1 || !ok2 || !types.Identical(ts, ss) {
+		return Val{}, false
+	}
+	ti := vc.eng.sorts.structInfoOf(target)
+	si := vc.eng.sorts.structInfoOf(v.Ty)
+	if ti == nil || si == nil || len(ti.Fields) != len(si.Fields) {
+		return Val{}, false
+	}
+	var parts []string
+	for _, f := range si.Fields {
+		parts = append(parts, fmt.Sprintf("(%s__%s %s)", si.Sort, f.Name, v.S))
+	}
+	if len(parts) == 0 {
+		parts = []string{"0"}
+	}
+	return Val{S: fmt.Sprintf("(mk_%s %s)", ti.Sort, strings.Join(parts, " ")), Ty: target, Sort: ti.Sort}, true
 }
